@@ -68,6 +68,14 @@ def main():
                                                u.get("technique", "contract-based deductive verification (Kani/CBMC contract harnesses on the real functions)")))
         if u.get("level") != "proof" and cat == "proof":
             cat = "other"
+        # the category is what the check's own evidence reports (a bounded stand-in or an undecided
+        # obligation in the unit makes the run report `other`, never `proof`)
+        evp = os.path.join(V, "evidence", pid + ".json")
+        if os.path.exists(evp):
+            try:
+                cat = json.load(open(evp))["level"]
+            except Exception:
+                pass
         checks.append({
             "property_id": pid,
             "quick_cmd": "./check %s --tier quick" % pid,
